@@ -178,6 +178,19 @@ func init() {
 		s := a[0].(StrV)
 		w := st.winOf(s)
 		st.assumeASCII(w, "strings.ToLower")
+		if s.Arr.Obj != nil && !s.Arr.Obj.Frozen {
+			// the string aliases mutable memory (unsafe.String over a buffer): like the real function,
+			// return the argument itself - still aliased - when there is nothing to lower
+			hasUpper := st.tt.False
+			for i := 0; i < w.max; i++ {
+				b := st.winByte(w, i)
+				in := st.tt.Cmp(OpULt, st.tt.Const(uint64(i), 64), s.Len)
+				hasUpper = st.tt.Or(hasUpper, st.tt.And(in, st.tt.And(st.tt.Cmp(OpULe, st.tt.Const('A', 8), b), st.tt.Cmp(OpULe, b, st.tt.Const('Z', 8)))))
+			}
+			if !st.branch(hasUpper) {
+				return s
+			}
+		}
 		out := make([]*Term, w.max)
 		for i := range out {
 			out[i] = st.lowerByte(st.winByte(w, i))
@@ -202,7 +215,7 @@ func init() {
 		}
 		return r
 	}))
-	reg("strings.Clone", simple(func(st *State, a []Value) Value { return a[0] }))
+	reg("strings.Clone", simple(func(st *State, a []Value) Value { return st.cloneStr(a[0].(StrV)) }))
 	reg("strings.TrimSpace", simple(func(st *State, a []Value) Value {
 		tt := st.tt
 		s := a[0].(StrV)
@@ -292,6 +305,15 @@ func init() {
 	})
 }
 
+// cloneStr copies a string's bytes into fresh immutable memory (matters only when the source
+// aliases a mutable buffer through unsafe).
+func (st *State) cloneStr(s StrV) StrV {
+	if s.Arr.Obj == nil {
+		return s
+	}
+	return st.bytesToStr(SliceV{Arr: s.Arr, Off: s.Off, Len: s.Len, Cap: s.Len})
+}
+
 // regexp: patterns over literal characters and '.' (any character) only - the class for
 // which unanchored matching is a wildcard substring search; anything else needs concrete
 // operands (then Go's own regexp decides).
@@ -299,7 +321,8 @@ func init() {
 	reg("regexp.Compile", func(st *State, th *Thread, fn *ssa.Function, a []Value) (Value, stepStatus) {
 		pt := fn.Signature.Results().At(0).Type().(*types.Pointer)
 		o := st.newObject(st.zero(pt.Elem()), pt.Elem(), "regexp")
-		st.kv["regexp:"+Ptr{Obj: o}.key()] = a[0]
+		// the compiled program does not depend on the source string's memory afterwards
+		st.kv["regexp:"+Ptr{Obj: o}.key()] = st.cloneStr(a[0].(StrV))
 		if cs, ok := st.concreteString(a[0].(StrV)); ok {
 			if _, err := regexp.Compile(cs); err != nil {
 				return TupleV{Ptr{}, st.opaqueError("regexp: " + err.Error())}, stNext
